@@ -2,8 +2,8 @@ package sim
 
 import (
 	"context"
-	"os"
 	"fmt"
+	"os"
 	"strings"
 
 	kruisev1alpha1 "github.com/openkruise/kruise-api/apps/v1alpha1"
@@ -15,8 +15,8 @@ import (
 	"k8s.io/apimachinery/pkg/runtime/schema"
 	"k8s.io/apimachinery/pkg/util/intstr"
 	"k8s.io/utils/pointer"
-	gatewayv1beta1 "sigs.k8s.io/gateway-api/apis/v1beta1"
 	"sigs.k8s.io/controller-runtime/pkg/client"
+	gatewayv1beta1 "sigs.k8s.io/gateway-api/apis/v1beta1"
 )
 
 // Action is one scheduler step of a history. Index-style arguments are taken modulo the
@@ -37,8 +37,8 @@ const (
 	UserApprove  = "approve"
 	UserPause    = "pause"
 	UserResume   = "resume"
-	UserScale    = "scale"    // N = new replicas
-	UserJump     = "jump"     // N = nextStepIndex to patch
+	UserScale    = "scale" // N = new replicas
+	UserJump     = "jump"  // N = nextStepIndex to patch
 	UserDisable  = "disable"
 	UserEnable   = "enable"
 	UserDelete   = "delete"
@@ -102,6 +102,22 @@ func (r *Run) Apply(a Action) {
 		}
 	case "restart":
 		w.Restart()
+	case "settle":
+		// controllers and environment run (fairly, no user) until they wait for something
+		for n := 0; n < 400; n++ {
+			progress := false
+			if len(w.pending) > 0 {
+				w.Reconcile(0)
+				progress = true
+			}
+			if acts := w.EnvActions(false); len(acts) > 0 {
+				w.ApplyEnv(acts[0])
+				progress = true
+			}
+			if !progress {
+				break
+			}
+		}
 	case "user":
 		r.skipped = false
 		r.user(a)
@@ -178,17 +194,24 @@ func (r *Run) user(a Action) {
 		if r.WorkloadVersion() == ver {
 			return
 		}
-		if a.Arg == UserRollback && KnownOpen[FindingRevertBeforeObserved] && os.Getenv("VERIF_REPLAY_STRICT") == "" && r.revertBeforeObserved() {
+		// a "release" of the template the Rollout records as stable is a rollback as well
+		isRevert := a.Arg == UserRollback || r.targetIsStable(o, ver)
+		if isRevert && KnownOpen[FindingRevertBeforeObserved] && os.Getenv("VERIF_REPLAY_STRICT") == "" && r.revertBeforeObserved() {
 			r.W.Excluded[FindingRevertBeforeObserved]++
 			r.skipped = true
 			return
 		}
-		if r.releaseDuringCancel() {
+		if r.releaseDuringCancel(o, ver) {
 			r.W.Excluded[FindingReleaseDuringCancel]++
 			r.skipped = true
 			return
 		}
-		if a.Arg == UserRollback && r.exitBeforeBatchRelease() {
+		if isRevert && r.rollbackBeforeFirstPod() {
+			r.W.Excluded[FindingRollbackBeforeFirstPod]++
+			r.skipped = true
+			return
+		}
+		if isRevert && r.exitBeforeBatchRelease() {
 			r.W.Excluded[FindingExitBeforeBatchRelease]++
 			r.skipped = true
 			return
@@ -278,7 +301,7 @@ func (r *Run) user(a Action) {
 			}
 			if sub := ro.Status.GetSubStatus(); sub != nil && r.jumpToSelfWithPlanEdit(ro, sub.NextStepIndex, true) {
 				r.W.Excluded[FindingPlanEditJumpToSelf]++
-			r.skipped = true
+				r.skipped = true
 				return
 			}
 			i := mod(a.N, len(steps))
@@ -362,11 +385,94 @@ const FindingScaleBelowTrafficStep = "c04-scale-down-to-traffic-step-size-emptie
 
 // KnownOpen lists the recorded (not repaired) findings whose input class the user model steers
 // away from, so that the search continues behind them. Exclusions are counted.
-var KnownOpen = map[string]bool{FindingRevertBeforeObserved: true, FindingExitBeforeBatchRelease: true, FindingGatewayDisableCanarySvc: true, FindingPlanEditJumpToSelf: true, FindingReleaseDuringCancel: true, FindingScaleBelowTrafficStep: true}
+// targetIsStable: the workload template with image app:<ver> is the revision the Rollout records
+// as stable while it is progressing.
+func (r *Run) targetIsStable(o client.Object, ver string) bool {
+	ro := r.W.Rollout(r.S.Namespace, r.S.Name)
+	if ro == nil || ro.Status.Phase != v1beta1.RolloutPhaseProgressing || ro.Status.GetSubStatus() == nil {
+		return false
+	}
+	tpl := templateOf(o).DeepCopy()
+	tpl.Spec.Containers[0].Image = "app:" + ver
+	stable := ro.Status.GetSubStatus().StableRevision
+	if r.S.Workload == "cloneset" {
+		return revisionHash(tpl) == stable
+	}
+	return k8sTemplateHash(templateWithoutHash(tpl)) == stable
+}
+
+// FindingRollbackBeforeFirstPod: controller_finder recognises a CloneSet rollback by
+// currentRevision == updateRevision && UpdatedReplicas != Replicas. That is false when no pod of
+// the new revision exists yet, when every pod is already on the new revision (currentRevision has
+// moved on), and when the partition lets the CloneSet controller revert every new pod before the
+// Rollout controller looks (partition 0). The revert is then taken for a continuous release of
+// the stable revision: a full stepwise "release" of v1 onto v1 runs (manual approvals included)
+// and ends Succeeded=True.
+const FindingRollbackBeforeFirstPod = "c10-cloneset-rollback-not-recognised-when-no-mixed-revisions-remain"
+
+// rollbackBeforeFirstPod: CloneSet, release in progress, and the pods will not stay on mixed
+// revisions after the revert.
+func (r *Run) rollbackBeforeFirstPod() bool {
+	if !KnownOpen[FindingRollbackBeforeFirstPod] || os.Getenv("VERIF_REPLAY_STRICT") != "" || !propActive("C10") || r.S.Workload != "cloneset" {
+		return false
+	}
+	ro := r.W.Rollout(r.S.Namespace, r.S.Name)
+	if ro == nil || ro.Status.Phase != v1beta1.RolloutPhaseProgressing || canaryRevOf(ro) == "" || ro.Status.GetSubStatus() == nil {
+		return false
+	}
+	if r.W.PodsOfRevision(r.S, canaryRevOf(ro)) == 0 || r.W.PodsOfRevision(r.S, ro.Status.GetSubStatus().StableRevision) == 0 {
+		return true
+	}
+	if cs, ok := r.workload().(*kruisev1alpha1.CloneSet); ok {
+		return scaledRoundUp(cs.Spec.UpdateStrategy.Partition, int(pointer.Int32Deref(cs.Spec.Replicas, 0)), 0) == 0
+	}
+	return false
+}
+
+// ActiveProps names the properties whose monitors the running check asserts (nil = all). The
+// exclusions of findings that can only surface through one property's monitor are applied only
+// where that monitor is asserted, so that the other checks keep exploring those inputs.
+var ActiveProps map[string]bool
+
+func propActive(p string) bool { return ActiveProps == nil || ActiveProps[p] }
+
+// FindingSupersededResumed: a third template is published on a partition-style workload while a
+// release is progressing. The BatchRelease controller "aborts" on the revision change for one
+// round only (it records the new update revision in its status), so if it reconciles again before
+// the Rollout controller restarts the release (always, while the Rollout is paused) it drives the
+// superseding revision to the superseded release's current batch: the webhook's full partition
+// is lowered again and the new revision reaches that many pods without ever passing step one.
+const FindingSupersededResumed = "c10-superseding-revision-driven-by-the-superseded-batchrelease"
+
+// supersededBatchReleaseWouldResume: this BatchRelease reconcile would run the superseded
+// release's plan on a revision the Rollout has not adopted yet.
+func (w *World) supersededBatchReleaseWouldResume(it QItem) bool {
+	if it.Ctrl != ActorBatchRelease || !KnownOpen[FindingSupersededResumed] || os.Getenv("VERIF_REPLAY_STRICT") != "" {
+		return false
+	}
+	br, ro := w.BatchRelease(it.Key.Namespace, it.Key.Name), w.Rollout(it.Key.Namespace, it.Key.Name)
+	if br == nil || ro == nil || br.DeletionTimestamp != nil || br.Status.Phase != v1beta1.RolloutPhaseProgressing ||
+		ro.Status.Phase != v1beta1.RolloutPhaseProgressing || ro.Spec.WorkloadRef.Kind != "CloneSet" || canaryRevOf(ro) == "" {
+		return false
+	}
+	o := w.Get(GVKCloneSet, it.Key.Namespace, ro.Spec.WorkloadRef.Name)
+	if o == nil {
+		return false
+	}
+	cs := o.(*kruisev1alpha1.CloneSet)
+	if cs.Generation != cs.Status.ObservedGeneration {
+		return false
+	}
+	upd := cs.Status.UpdateRevision
+	short := upd[strings.LastIndex(upd, "-")+1:]
+	return short != canaryRevOf(ro) && short != ro.Status.GetSubStatus().StableRevision && br.Status.UpdateRevision == upd
+}
+
+var KnownOpen = map[string]bool{FindingSupersededResumed: true, FindingRollbackBeforeFirstPod: true, FindingRevertBeforeObserved: true, FindingExitBeforeBatchRelease: true, FindingGatewayDisableCanarySvc: true, FindingPlanEditJumpToSelf: true, FindingReleaseDuringCancel: true, FindingScaleBelowTrafficStep: true}
 
 // scaleBelowTrafficStep: partition style + provider + an integer step with traffic >= n.
 func (r *Run) scaleBelowTrafficStep(n int) bool {
-	if !KnownOpen[FindingScaleBelowTrafficStep] || os.Getenv("VERIF_REPLAY_STRICT") != "" || !r.S.HasTraffic() || r.S.Style != "partition" {
+	if !KnownOpen[FindingScaleBelowTrafficStep] || os.Getenv("VERIF_REPLAY_STRICT") != "" || !propActive("C04") || !r.S.HasTraffic() || r.S.Style != "partition" {
 		return false
 	}
 	ro := r.W.Rollout(r.S.Namespace, r.S.Name)
@@ -390,7 +496,7 @@ func (r *Run) scaleBelowTrafficStep(n int) bool {
 }
 
 // releaseDuringCancel: traffic routing configured and the Rollout is finalising a rollback.
-func (r *Run) releaseDuringCancel() bool {
+func (r *Run) releaseDuringCancel(target client.Object, ver string) bool {
 	if !KnownOpen[FindingReleaseDuringCancel] || os.Getenv("VERIF_REPLAY_STRICT") != "" {
 		return false
 	}
@@ -404,7 +510,7 @@ func (r *Run) releaseDuringCancel() bool {
 			return true
 		}
 	}
-	if !r.S.HasTraffic() {
+	if !r.S.HasTraffic() || !propActive("C04") {
 		return false
 	}
 	// (b) the dangerous window with traffic routing: the workload has been handed back (no in-progressing marker, so the
@@ -419,7 +525,32 @@ func (r *Run) releaseDuringCancel() bool {
 	// partition style: a superseding release lets the workload controller replace the remaining
 	// stable pods (it keeps "partition" pods of any old revision) while the Service stays pinned
 	svc := r.W.Get(GVKService, r.S.Namespace, r.S.StableServiceName())
-	return svc != nil && svc.(*corev1.Service).Spec.Selector[appsv1.DefaultDeploymentUniqueLabelKey] != ""
+	if svc != nil && svc.(*corev1.Service).Spec.Selector[appsv1.DefaultDeploymentUniqueLabelKey] != "" {
+		return true
+	}
+	// ... and the same before the Service is pinned: a template change while the pods are already
+	// on two revisions leaves old pods of both, and a later traffic step pins the Service to a
+	// stable revision whose pods may all be replaced
+	if r.S.Style == "partition" {
+		revs := map[string]bool{}
+		for _, po := range r.W.ListAll(GVKPod, r.S.Namespace) {
+			if p := po.(*corev1.Pod); p.DeletionTimestamp == nil && p.Labels["app"] == "demo" {
+				revs[p.Labels[appsv1.DefaultDeploymentUniqueLabelKey]] = true
+			}
+		}
+		tpl := templateOf(target).DeepCopy()
+		tpl.Spec.Containers[0].Image = "app:" + ver
+		if len(revs) >= 2 && !revs[revisionHash(tpl)] {
+			return true
+		}
+		// a third revision while a release is progressing: the restarted release records the
+		// superseded revision as stable as soon as every pod had reached it
+		if ro := r.W.Rollout(r.S.Namespace, r.S.Name); ro != nil && ro.Status.Phase == v1beta1.RolloutPhaseProgressing && ro.Status.GetSubStatus() != nil {
+			h := revisionHash(tpl)
+			return h != canaryRevOf(ro) && h != ro.Status.GetSubStatus().StableRevision
+		}
+	}
+	return false
 }
 
 // jumpToSelfWithPlanEdit: the rollout is InRolling at step k before its upgrade finished, and
@@ -470,7 +601,7 @@ func (r *Run) exitBeforeBatchRelease() bool {
 	if err != nil || wl == nil || !wl.IsStatusConsistent {
 		return true
 	}
-	return wl.CanaryRevision != ro.Status.GetCanaryRevision()
+	return wl.CanaryRevision != canaryRevOf(ro)
 }
 
 // revertBeforeObserved: the workload is marked in-progressing but the Rollout has not yet
@@ -500,7 +631,7 @@ func (r *Run) revertBeforeObserved() bool {
 	if err != nil || wl == nil || !wl.IsStatusConsistent {
 		return true
 	}
-	return wl.CanaryRevision != ro.Status.GetCanaryRevision()
+	return wl.CanaryRevision != canaryRevOf(ro)
 }
 
 // ---------- fair completion ----------
@@ -632,7 +763,7 @@ func (r *Run) FinalState() map[string]any {
 		}
 		if sub := ro.Status.GetSubStatus(); sub != nil {
 			m["step"] = fmt.Sprintf("%d/%s/%s", sub.CurrentStepIndex, sub.CurrentStepState, sub.FinalisingStep)
-			m["canaryRevision"] = ro.Status.GetCanaryRevision()
+			m["canaryRevision"] = canaryRevOf(ro)
 		}
 		out["rollout"] = m
 	} else {
